@@ -270,8 +270,8 @@ def rules_old(run):
 
 
 def check(run):
-    rules_points(run)
-    rules_raise(run)
-    rules_old(run)
+    run.guard(rules_points, run)
+    run.guard(rules_raise, run)
+    run.guard(rules_old, run)
     r = run.rule('C08.6', 'no try statement around a call that can reach the contract check catches ContractError (or a supertype)')
-    swallow_check(run, r, ['Interpreter._evaluate_contract_conditions'], 'PreconditionError', 'contract check')
+    run.guard(swallow_check, run, r, ['Interpreter._evaluate_contract_conditions'], 'PreconditionError', 'contract check')
